@@ -249,9 +249,15 @@ fn chiplets_kernel_table_include<E>(main_trace: &MainTrace, alphas: &[E], row: u
 where
     E: FieldElement<BaseField = Felt>,
 {
-    if main_trace.is_kernel_row(row) && main_trace.is_addr_change(row) {
+    // a kernel procedure is added once, at the last row which the kernel ROM has for it: the next
+    // row belongs to another procedure or is not a kernel ROM row any more. The address is the
+    // kernel ROM's own address column (the decoder's block address has nothing to do with it).
+    let is_last_row_of_proc = main_trace.is_kernel_row(row)
+        && (!main_trace.is_kernel_row(row + 1)
+            || main_trace.chiplet_kernel_addr(row) != main_trace.chiplet_kernel_addr(row + 1));
+    if is_last_row_of_proc {
         alphas[0]
-            + alphas[1].mul_base(main_trace.addr(row))
+            + alphas[1].mul_base(main_trace.chiplet_kernel_addr(row))
             + alphas[2].mul_base(main_trace.chiplet_kernel_root_0(row))
             + alphas[3].mul_base(main_trace.chiplet_kernel_root_1(row))
             + alphas[4].mul_base(main_trace.chiplet_kernel_root_2(row))
